@@ -249,6 +249,38 @@ func errValueNil(v ssa.Value, at *ssa.BasicBlock, seen map[ssa.Value]bool) Tri {
 				return No
 			}
 		}
+		// a helper that hands back one of its parameters as its error (cleanup-and-return closures)
+		var callee *ssa.Function
+		switch cv := x.Call.Value.(type) {
+		case *ssa.Function:
+			callee = cv
+		case *ssa.MakeClosure:
+			callee, _ = cv.Fn.(*ssa.Function)
+		}
+		if callee != nil && callee.Blocks != nil && !x.Call.IsInvoke() {
+			if idx := ErrResultIndex(callee); idx >= 0 {
+				pi := -1
+				for _, ret := range Returns(callee) {
+					p, ok := ret.Results[idx].(*ssa.Parameter)
+					k := -1
+					if ok {
+						for i, q := range callee.Params {
+							if q == p {
+								k = i
+							}
+						}
+					}
+					if k < 0 || (pi >= 0 && pi != k) {
+						pi = -2
+						break
+					}
+					pi = k
+				}
+				if pi >= 0 && pi < len(x.Call.Args) {
+					return errValueNil(x.Call.Args[pi], x.Block(), seen)
+				}
+			}
+		}
 	case *ssa.Phi:
 		res := Tri(-1)
 		for _, e := range x.Edges {
